@@ -213,6 +213,19 @@ func main() {
 		{"add-annotation", "envelope", func(s *script) { s.mutate = edit(func(m map[string]any) { ann(m)["k9"] = "v9" }) }, false},
 		{"extra-payload-field", "envelope", func(s *script) { s.mutate = edit(func(m map[string]any) { m["extra"] = 1 }) }, true},
 		{"extra-payload-field-null", "envelope", func(s *script) { s.mutate = edit(func(m map[string]any) { m["extra"] = nil }) }, true},
+		// extra members that happen to be NAMED like members of the other level
+		{"extra-payload-field-named-digest", "envelope", func(s *script) {
+			s.mutate = edit(func(m map[string]any) { m["digest"] = "sha256:" + strings.Repeat("0", 64) })
+		}, true},
+		{"extra-payload-field-named-annotations", "envelope", func(s *script) {
+			s.mutate = edit(func(m map[string]any) { m["annotations"] = map[string]any{"smuggled": "x"} })
+		}, true},
+		{"extra-payload-field-named-size", "envelope", func(s *script) { s.mutate = edit(func(m map[string]any) { m["size"] = 1 }) }, true},
+		{"extra-desc-field-named-targetArtifact", "envelope", func(s *script) {
+			s.mutate = edit(func(m map[string]any) {
+				ta(m)["targetArtifact"] = map[string]any{"digest": "sha256:" + strings.Repeat("1", 64)}
+			})
+		}, true},
 		{"extra-desc-field", "envelope", func(s *script) { s.mutate = edit(func(m map[string]any) { ta(m)["extra"] = "x" }) }, true},
 		{"extra-desc-field-object", "envelope", func(s *script) {
 			s.mutate = edit(func(m map[string]any) { ta(m)["subject"] = map[string]any{"digest": otherDigest} })
@@ -352,6 +365,9 @@ func main() {
 			sc.realFmt = otherFormat(c.format)
 		}
 		content := []byte(fmt.Sprintf("c18 content %d", ci%7))
+		if ci%7 == 3 {
+			content = []byte{} // the empty artifact / blob: size 0 is a size like any other
+		}
 		desc := ocispec.Descriptor{MediaType: "application/vnd.example.thing", Digest: digest.FromBytes(content), Size: int64(len(content))}
 		if c.annots {
 			desc.Annotations = map[string]string{"k1": "v1", "k2": "v2", "org.example.reviewed": ""} // (an empty value is a value)
